@@ -16,11 +16,17 @@ CONSTANTS
   Num <- NumDef
   Readers <- R2
   StreamC <- Stream4
-  Order <- OrderPubFirst
+  Order <- OrderAsIs
   CheckAccepts = TRUE
   SimCommits = FALSE
-  WithNext = FALSE
+  WithNext = TRUE
   NextTwoLoads = FALSE
 SYMMETRY Sym
 INVARIANT VisibleImpliesComplete
+INVARIANT PublishedComplete
+INVARIANT FinalizedMonotonePerReader
+INVARIANT NextIsOneSnapshot
+INVARIANT NoQueryWrites
+INVARIANT DurableBehindMemory
+PROPERTY QueriesAreReadOnly
 CHECK_DEADLOCK FALSE
